@@ -1,3 +1,5 @@
+import e2e_e2etraffic
+
 SPEC = {
     "corr": [{"kind": "ipfix", "quick": 12000, "thorough": 1200000},
              {"kind": "nf9", "quick": 12000, "thorough": 1200000},
@@ -7,12 +9,19 @@ SPEC = {
              {"kind": "json", "quick": 5000, "thorough": 400000},
              # the real worker pools of all four protocols under concurrent load incl. unchanged template refreshes: a crash of any worker goroutine kills the run
              {"kind": "pipeline", "quick": 48, "thorough": 1600, "runner": {"pkg": "./vflow", "test": "TestVerifPipeline", "race": False}}],
+    # the third observation point of the property (liveness and exit status of the vflow process after datagrams have been sent to
+    # its UDP ports), on the unmodified binary
+    "extra": [e2e_e2etraffic.traffic_cycles],
     "rule": "the malformed-heavy streams of all four protocols: sessions of 1..8 datagrams over several exporter address forms with "
             "hostile templates in force (zero-length fields, zero fields - also as a field-count-0 record in front of other records of a "
             "template set, followed by data for it: that datagram is expected back with the records of its other sets, tag F30 -, reserved ids, "
             "65535 markers, length fields 0/boundary/0xffff, "
             "truncation, bit flips, trailing garbage), each datagram decoded AND marshalled by the real code under recover(), a watchdog "
-            "and ulimit -v; crashed cases are attributed by restarting the runner; non-trivial = decoded (not rejected); distinct = case line",
+            "and ulimit -v; crashed cases are attributed by restarting the runner; non-trivial = decoded (not rejected); distinct = case line. "
+            "e2e-traffic (the REAL binary, DESIGN.md §6 *End-to-end*): 6 (quick) / 200 (thorough) cycles, each starting the unmodified vflow binary (four listeners, producer rawSocket -> a TCP sink of the harness, fresh cache files, 1..64 workers, read buffers of 1500 / 9000 octets) and sending it about 300 / 2000 datagrams of the ipfix, nf9, nf5 and sflow generators from per-session loopback exporter addresses, in phases separated by the collector's own counters (no dependence on worker order, K5), paced by its UDPCount (no socket overflow); expectation per datagram from the real decoders in-process (`corr e2eref`); C01 demands: no panic / fatal error / runtime error on stderr, the process alive after the stream and answering "
+            "/flow, a fresh template + data record (IPFIX, NetFlow v9), a NetFlow v5 and an sFlow datagram sent afterwards are decoded "
+            "(DecodedCount moves, their four JSON lines arrive at the sink), SIGTERM ends it with status 0; a cycle that could not be run "
+            "(start, statistics API, datagrams lost on the way in) gives no verdict (`skipped:<reason>` in the distribution)",
     "assumptions": ["Go slice / map / integer semantics as transcribed in the models; every panic-capable expression of the anchored "
                     "files is in the reviewed inventory lean/Vflow/Spec/Sites.lean (re-extracted on every run)",
                     "the worker loops (vflow/*.go) only call Decode + JSONMarshal on the datagram: their share is covered by C12/C13"],
@@ -22,9 +31,12 @@ META = {
             "IPFIX / v9 / v5 decoders: every payload, in every cache state, is decoded or rejected with an error — never `fuel` "
             "(non-termination); Interpret's unguarded reads are inside the value for every FieldType; over regenerated facts: writeValue "
             "has an arm for every dynamic type Interpret returns, and the index/slice/type-assertion expressions of the 18 anchored files "
-            "are the reviewed inventory. Correspondence: malformed streams of all four protocols, decode + marshal, under recover().",
+            "are the reviewed inventory. Correspondence: malformed streams of all four protocols, decode + marshal, under recover(). "
+            "End to end: the same generators' streams sent to the UDP ports of the unmodified binary; it must stay alive, keep decoding, "
+            "log no panic and leave with status 0 on SIGTERM.",
     "ref": "DESIGN.md §6 C01",
     "note": "Partial: the theorem is about the model; a panic in Go code the model does not transcribe would be seen only by the "
-            "correspondence (which samples) or by a change of the site inventory. Trusted: Lean kernel, factgen, harness.",
-    "technique": "Lean 4 totality / no-panic proofs on executable decoder models + regenerated panic-site inventory + differential fuzz-style correspondence under recover()",
+            "correspondence (which samples) or by a change of the site inventory. Trusted: Lean kernel, factgen, harness (incl. the end-to-end harness e2e_e2etraffic.py: "
+            "a cycle it cannot run gives no verdict).",
+    "technique": "Lean 4 totality / no-panic proofs on executable decoder models + regenerated panic-site inventory + differential fuzz-style correspondence under recover() + end-to-end traffic cycles of the built binary",
 }
